@@ -6,16 +6,16 @@ CORE_TXT = {
  'C02': ('TLC exhaustive on history configs incl. shared cache entries; implementation traces (random, model-generated covers) validated; C02_AtMostOnce, C02_NoNeedlessRun (harness-recorded earlier executions + pre-build cache), C02_RepeatIsNoOp evaluated on every recorded return', '7/C02'),
  'C03': ('all interleavings of the shared steps of one build on diamond / fan-in / failing graphs are model-checked; recorded executions under random and model-generated schedules validated; C03_SourcesFinal (what each command read = final = from-scratch content) and C03_ProducersDone', '7/C03'),
  'C04': ('failing rules / missing leaves at every position (menu) x all interleavings model-checked; recorded failing builds validated: exact error bag, dependents never run, others built, nothing remembered, retried', '7/C04'),
- 'C05': ('deadlock freedom, no channel error, no panic on all interleavings of the model; the scheduler shim detects deadlock / panic / hang in the real code under random and model-generated schedules incl. damaged state files and invalid graphs', '7/C05'),
- 'C06': ('model: every interleaving of the last build of scripted histories gives one outcome (OUTCOME probe); implementation: TLC transition cover (every (event, state) edge of the model) and the counterexample of the pre-repair model replayed under the deterministic scheduler, each compared with the serial schedule on a copy', '6.6, 7/C06'),
+ 'C05': ('deadlock freedom, no channel error, no panic on all interleavings of the model; the scheduler shim detects deadlock / panic / hang in the real code under random and model-generated schedules incl. damaged state files and invalid graphs; an invocation that exceeds the step budget (in process) or 30 s (real binary) is recorded as hanging; the real binary is also run with a standard output that cannot be written and with removed workspace directories', '7/C05'),
+ 'C06': ('model: every interleaving of the last build of scripted histories gives one outcome (OUTCOME probe); implementation: TLC transition cover (every (event, state) edge of the model) and the counterexample of the pre-repair model replayed under the deterministic scheduler, each compared with the serial schedule on a copy; on the real file system with real threads: 16-27 independent rules with byte-identical outputs competing for one cache entry (C06_NoSpuriousFailure)', '6.6, 7/C06'),
  'C07': ('C07_ContentAddressed is an invariant of every model state incl. crash states; on the implementation the projection recomputes each cache file name from its bytes with an independent SHA-256 at every return and at every crash snapshot', '7/C07'),
  'C08': ('C08_NothingLost in every model state; implementation: every return and every crash snapshot (after each mutating System call, one torn prefix per write) of random and model-generated histories; overwrites by ruler itself are logged by the instrumented System', '7/C08'),
- 'C09': ('frame condition C09_OnlyScopeTouched model-checked for every goal choice; implementation: content, stamp and mode of every out-of-scope path compared across each invocation, plus the list of paths ruler itself mutated', '7/C09'),
+ 'C09': ('frame condition C09_OnlyScopeTouched model-checked for every goal choice; implementation: content, stamp and mode of every out-of-scope path compared across each invocation, plus the list of paths ruler itself mutated; ruler makes no workspace directory (C09_NoDirMade); the real binary on the real file system is judged by the same predicates', '7/C09'),
  'C10': ('clean / build goal pairs model-checked incl. equal contents and executable outputs; implementation traces validated: C10_CleanMovesToCache, C10_BuildBringsBack; plus clean/build round trips of the real binary with shell commands on the real file system judged by RealFs.tla', '7/C10'),
  'C11': ('crash action enabled between all steps in the model; implementation: snapshot after every mutating call of the interrupted invocation of random and model-generated histories, recovery build from each, validated by TLC (C11_CrashStateSane, C11_Recovers, C07, C08 at the crash instant)', '7/C11'),
- 'C17': ('rules with an undeclared input on every subset of a 2-target rule model-checked; implementation traces with env changes validated: C17_ContradictionReported (exact paths, both directions) and C17_HistoryKept', '7/C17'),
- 'C18': ('tick-clock model checked with the auxiliary invariants (table truth, sent-hash truth); the counterexample of the pre-repair model (D4) and random histories are run twice in the implementation (with and without the table) and TLC compares verdict and contents (C18_Twin) under both clock models', '7/C18'),
- 'C20': ('status lines are part of the return event of the model; implementation: Printer calls compared by TLC with what the logged operations say (executed / taken from cache / untouched), one line per target of every finished rule, none for failed or cancelled ones', '7/C20'),
+ 'C17': ('rules with an undeclared input on every subset of a 2-target rule model-checked; implementation traces with env changes validated: C17_ContradictionReported (exact paths, both directions) and C17_HistoryKept; the real binary with an undeclared input file on the real file system (profile realenv)', '7/C17'),
+ 'C18': ('tick-clock model checked with the auxiliary invariants (table truth, sent-hash truth); the counterexample of the pre-repair model (D4) and random histories are run twice in the implementation (with and without the table) and TLC compares verdict and contents (C18_Twin) under both clock models; the real binary runs every real-file-system history twice as well', '7/C18'),
+ 'C20': ('status lines are part of the return event of the model; implementation: Printer calls compared by TLC with what the logged operations say (executed / taken from cache / untouched), one line per target of every finished rule, none for failed or cancelled ones; for the real binary the part that needs no knowledge of takes and back-ups (C20_StatusReal) and C20_FailuresOnce on its printed report', '7/C20'),
 }
 SAT_TXT = {
  'C12': ('the DFS of sort.rs transcribed in TLA+ is model-checked against the declarative oracle for every graph on <=4 (5) rules x every goal; the real topological_sort[_all] is run on every graph on 3 (4) rules, multi-target and random larger graphs incl. duplicates / self-loops / cycles, each in two input orders, and TLC judges every (input, output) record with the oracle (Sort.tla); plus end-to-end: invalid graphs are rejected by build/clean', '7/C12'),
